@@ -156,6 +156,7 @@ type SSEServer struct {
 	logger               Logger                                                     // Logger for this server.
 	requestID            atomic.Int64                                               // Request ID counter for generating unique request IDs.
 	responses            map[uint64]interface{}                                     // Map for storing response channels.
+	responseSessions     map[uint64]string                                          // Session each pending request was sent to.
 	responsesMu          sync.RWMutex                                               // Mutex for responses map.
 	notificationHandlers map[string]ServerNotificationHandler                       // Map of notification handlers by method name.
 	notificationMu       sync.RWMutex                                               // Mutex for notification handlers map.
@@ -204,6 +205,7 @@ func NewSSEServer(name, version string, opts ...SSEOption) *SSEServer {
 		keepAliveInterval:    30 * time.Second,
 		logger:               GetDefaultLogger(),
 		responses:            make(map[uint64]interface{}),
+		responseSessions:     make(map[uint64]string),
 		notificationHandlers: make(map[string]ServerNotificationHandler),
 	}
 
@@ -740,10 +742,17 @@ func (s *SSEServer) handleResponseMessage(ctx context.Context, rawMessage json.R
 	// Get the response channel.
 	s.responsesMu.RLock()
 	responseChanInterface, exists := s.responses[requestIDUint]
+	addressee := s.responseSessions[requestIDUint]
 	s.responsesMu.RUnlock()
 
 	if !exists {
 		s.logger.Debugf("Received response for unknown request ID: %d", requestIDUint)
+		return
+	}
+
+	// Only the session the request was sent to may answer it.
+	if session == nil || session.sessionID != addressee {
+		s.logger.Errorf("Ignoring response for request ID %d from a session it was not sent to", requestIDUint)
 		return
 	}
 
@@ -872,7 +881,7 @@ func (s *SSEServer) processRequestAsync(ctx context.Context, request *JSONRPCReq
 
 	// Check if this is a response to our roots/list request.
 	if s.isRootsListResponse(request) {
-		s.handleRootsListResponse(request)
+		s.handleRootsListResponse(request, session)
 		return
 	}
 
@@ -933,7 +942,7 @@ func (s *SSEServer) isRootsListResponse(request *JSONRPCRequest) bool {
 }
 
 // handleRootsListResponse processes responses from clients to our roots/list requests.
-func (s *SSEServer) handleRootsListResponse(request *JSONRPCRequest) {
+func (s *SSEServer) handleRootsListResponse(request *JSONRPCRequest, session *sseSession) {
 	var responseID interface{} = request.ID
 	var responseResult json.RawMessage
 	var responseError json.RawMessage
@@ -978,10 +987,17 @@ func (s *SSEServer) handleRootsListResponse(request *JSONRPCRequest) {
 	// Get the response channel.
 	s.responsesMu.RLock()
 	responseChanInterface, exists := s.responses[requestIDUint]
+	addressee := s.responseSessions[requestIDUint]
 	s.responsesMu.RUnlock()
 
 	if !exists {
 		s.logger.Debugf("Received response for unknown request ID: %d", requestIDUint)
+		return
+	}
+
+	// Only the session the request was sent to may answer it.
+	if session == nil || session.sessionID != addressee {
+		s.logger.Errorf("Ignoring response for request ID %d from a session it was not sent to", requestIDUint)
 		return
 	}
 
@@ -1362,12 +1378,17 @@ func (s *SSEServer) SendRequest(ctx context.Context, sessionID string, request *
 		s.responses = make(map[uint64]interface{})
 	}
 	s.responses[requestIDUint] = resultChan
+	if s.responseSessions == nil {
+		s.responseSessions = make(map[uint64]string)
+	}
+	s.responseSessions[requestIDUint] = sessionID
 	s.responsesMu.Unlock()
 
 	// Clean up the response channel when done
 	defer func() {
 		s.responsesMu.Lock()
 		delete(s.responses, requestIDUint)
+		delete(s.responseSessions, requestIDUint)
 		s.responsesMu.Unlock()
 	}()
 
